@@ -132,10 +132,10 @@ def channel_pool():
 FAR = [1000, 65536 - 7, 65536, 100000, 2 ** 20 + 3]
 
 
-def far_shift(draw, spec, one_in=12):
+def far_shift(draw, spec, one_in=12, extra=()):
     """with probability 1/one_in: move the whole content far away from tick 0 (large absolute tick values)"""
     if draw(st.integers(0, one_in - 1)) == 0:
-        spec["shift"] = draw(st.sampled_from(FAR))
+        spec["shift"] = draw(st.sampled_from(FAR + list(extra)))
         if spec.get("pad") is not None:
             spec["pad"] += spec["shift"]
     return spec.get("shift", 0)
